@@ -32,7 +32,9 @@ LEVEL_NOTE = (
 )
 RULE = (
     "cases = recipes from vk.gen.problem restricted to the PDDL fragment by vk.gen.iofrag (no bounded types / object fluents / "
-    "invariants; Boolean fluents closed-world; finite-decimal rationals; adversarial identifiers incl. keywords, upper case, "
+    "invariants; Boolean fluents closed-world; finite-decimal rationals - every other case with all numeric fluents real and "
+    "non-dyadic decimal constants 1/10, 1/5, 3/10, 7/20 .. in initial values, effect values, conditions, durations, compared "
+    "exactly as Fractions, also along two lock-step walks of up to 6 state-changing steps; adversarial identifiers incl. keywords, upper case, "
     "leading digits, symbols, names equal to mangled forms; planted a-(b-c), a/(b/c); action costs / plan length / final-value "
     "metrics; conditional, forall, quantified constructs; durative actions with start/end/over-all conditions and timed "
     "initial literals). One evaluation = one judged comparison (initial state, goal status, one ground instance in one state "
@@ -52,8 +54,8 @@ SHARD_TIMEOUT = {"quick": 900, "thorough": 5400}
 # ai_other: share of the non-"ai-friendly" cases that are also given to the AI-planning reader (the third-party parser behind it
 # rejects most of them - binary minus, negative literals, durative actions - after 0.1-0.2 CPU-seconds spent building its grammar)
 BOUNDS = {
-    "quick": dict(n=120, shards=5, depth=2, max_states=8, max_inst=10, plans=2, ai_other=0.25),
-    "thorough": dict(n=6000, shards=16, depth=3, max_states=40, max_inst=24, plans=4, ai_other=1.0),
+    "quick": dict(n=120, shards=5, depth=2, max_states=8, max_inst=10, walks=2, walk_len=6, plans=2, ai_other=0.25),
+    "thorough": dict(n=6000, shards=16, depth=3, max_states=40, max_inst=24, walks=3, walk_len=8, plans=4, ai_other=1.0),
 }
 
 
@@ -252,7 +254,7 @@ def check_problem(pb, rec, info, wbase, b, res, rng, explicit_env=False):
                 raise
 
         try:
-            st, corr = bisim.bisimulate(pb, pb2, bisim.FnNameMap(name_of), depth=b["depth"], max_states=b["max_states"], max_inst=b["max_inst"])
+            st, corr = bisim.bisimulate(pb, pb2, bisim.FnNameMap(name_of), depth=b["depth"], max_states=b["max_states"], max_inst=b["max_inst"], walks=b.get("walks", 0), walk_len=b.get("walk_len", 0))
         except bisim.Mismatch as m:
             res.mon()
             res.case()
@@ -301,6 +303,10 @@ def check_problem(pb, rec, info, wbase, b, res, rng, explicit_env=False):
                 res.count("class:timed-initial")
             if info.get("rewrite"):
                 res.count("class:rewrite-bool-assignments")
+            if "example" not in wbase and iofrag.has_non_dyadic_decimals(rec):
+                res.count("class:non-dyadic-decimal-constants")
+                if st.counters.get("state-pairs-with-non-dyadic-decimal-values"):
+                    res.count("class:non-dyadic-decimal-values-in-states")
         # metric: not part of C18's statement -> observation only
         try:
             bisim.compare_metrics(corr, st.reached, b["max_inst"])
@@ -483,6 +489,9 @@ REQUIRED = {
         "class:action-costs": 8,
         "class:durative": 8,
         "class:timed-initial": 3,
+        "class:non-dyadic-decimal-constants": 15,  # Real constants such as 1/10, 3/10, 0.35 (finite decimal, no binary float)
+        "class:non-dyadic-decimal-values-in-states": 10,  # ... that reached judged states (initial values / effect values)
+        "walk-steps-beyond-depth": 40,  # lock-step walk steps past the breadth-first depth (accumulated effects)
         "feature:conditional": 100,
         "feature:forall": 40,
         "bisimulated_with_changes:up": 30,
